@@ -120,6 +120,9 @@ Record case := MkCase {
   c_tol : float;
   c_debug : bool;
   c_cmp : nat;                    (* number of leading Lanczos vectors / tridiagonal rows compared by value *)
+  c_cmpv : seq nat;               (* member-wise: that number per leading index (start vector, batch member); [::] = c_cmp for all.
+                                     Theorem C09_member_independence: a member's vectors depend on its own (A, q_0) only, so the
+                                     members that did not break down are compared even when another member of the batch did *)
   c_cmp_exit : bool;              (* compare the final number of iterations (and hence the shapes) *)
   c_rtol : float;
   c_obs : observed
@@ -154,9 +157,10 @@ Definition check_case (c : case) : nat :=
         let m' := last 0 ts in                      (* observed number of iterations *)
         if ~~ (all (shape_ok n m') Q && all (shape_ok m' m') T) then 4
         else
-          let k := minn (c_cmp c) (minn m' (o_m o)) in
-          if ~~ all2 (bclose (c_rtol c) zero n k) (o_Q o) Q then 5
-          else if ~~ all2 (bclose (c_rtol c) zero k k) (o_T o) T then 6
+          let kk := minn m' (o_m o) in
+          let k i := minn (if c_cmpv c is [::] then c_cmp c else nth 0 (c_cmpv c) i) kk in
+          if ~~ all (fun i => bclose (c_rtol c) zero n (k i) (nth [::] (o_Q o) i) (nth [::] Q i)) (iota 0 (size Q)) then 5
+          else if ~~ all (fun i => bclose (c_rtol c) zero (k i) (k i) (nth [::] (o_T o) i) (nth [::] T i)) (iota 0 (size T)) then 6
           else 0
   end.
 
